@@ -117,7 +117,9 @@ Stop == /\ Is("Stop")
         /\ LET st == At(Ev.ts) IN
            Step([st EXCEPT !.kept = @ \ Range(Ev.keys), !.once = @ \ Range(Ev.keys),
                            !.onceLast = [k \in 1..st.c.nkeys |-> IF k \in Range(Ev.keys) THEN -1 ELSE @[k]],
-                           !.saved = [k \in 1..st.c.nkeys |-> IF k \in Range(Ev.keys) THEN [kept |-> k \in st.kept, since |-> st.since[k], last |-> st.last[k]] ELSE @[k]],
+                           \* (a second stop of the key at the same instant - the same batch behind the buffered wrapper - keeps
+                           \* what the first one replaced)
+                           !.saved = [k \in 1..st.c.nkeys |-> IF k \in Range(Ev.keys) /\ st.stopped[k] # Ev.ts THEN [kept |-> k \in st.kept, since |-> st.since[k], last |-> st.last[k]] ELSE @[k]],
                            !.stopped = [k \in 1..st.c.nkeys |-> IF k \in Range(Ev.keys) THEN Ev.ts ELSE @[k]]])
 Swarm == /\ Is("Swarm") /\ LET st == Quiet IN Step([st EXCEPT !.nearest = Ev.nearest])
 Offline == /\ Is("Offline") /\ LET st == Quiet IN Step([st EXCEPT !.online = FALSE, !.outaged = TRUE])
